@@ -1,6 +1,7 @@
 """C19 — index bases are transparent (engine L): every C01 obligation re-evaluated with free symbolic index bases,
 plus reindexed / blocked / stenciled."""
 from vlib import common, viewops, viewextra
+from checks import c02
 
 
 def run(tier):
@@ -19,7 +20,9 @@ def run(tier):
         viewextra.add_root(cr, D, False, "O19", claim_collapse=False)
         viewextra.add_paths(cr, D, False, "O19")
         viewextra.add_empty_results(cr, D, False, "O19")
-    cr.compile(nshards=8)
+    for D in range(1, (3 if tier == "thorough" else 2) + 1):
+        c02.add_flat(cr, D, False, fam="O19.flat", one_key="O19.flat:elements()-of-a-view-with-non-zero-index-bases-is-shifted-by-the-offsets")
+    cr.compile(nshards=8, extra_prelude=c02.EXTRA)
     cr.check()
     rep.need_instances("O19 obligations generated", len(rep.obligations), 1450 if tier == "quick" else 2450)
     rep.trusted = ["clang 14 IR generation and -O2 pipeline (used as normaliser)", "vlib/viewspec.py (documented index maps)",
